@@ -3,8 +3,8 @@ package main
 // C14 (subscripts) and C16 (item methods).
 
 import (
-	"go/constant"
 	"fmt"
+	"go/constant"
 	"go/token"
 	"go/types"
 	"sort"
